@@ -16,6 +16,10 @@ let op_of_json j =
   | JStr "read" :: _ -> Read
   | JStr "delete" :: _ -> Delete
   | JStr "advance" :: n :: _ -> Advance (jn n)
+  | JStr "isv" :: JNull :: _ -> IsVerified None
+  | JStr "isv" :: n :: _ -> IsVerified (Some (jn n))
+  | JStr "ensure" :: _ -> Ensure
+  | JStr "iofail" :: _ -> IoFail
   | _ -> raise (Model_error "bad op")
 
 let json_of_res r =
@@ -23,6 +27,7 @@ let json_of_res r =
   | ROk -> JStr "ok" | ROSError -> JStr "OSError" | RInvalid -> JStr "InvalidStateError"
   | RNew i -> JArr [JStr "new"; of_nat i] | RBadId -> JStr "badid"
   | RRead b -> JArr [JStr "read"; of_bytes b] | RSkipped -> JStr "skipped"
+  | RBool b -> JArr [JStr "bool"; of_bool b]
 
 let json_of_fut f =
   match f with
